@@ -62,6 +62,46 @@ pub fn handle(op: &str, req: &Value) -> Option<Value> {
             };
             json!({"before": before, "after": dump(&lm), "result": result})
         },
+        "wait_graph_step" => {
+            use tensor_chain::deadlock::WaitForGraph;
+            let nodes: Vec<u64> = req["nodes"].as_array().into_iter().flatten().map(|x| x.as_u64().unwrap_or(0)).collect();
+            let g = WaitForGraph::new();
+            let mut pre: Vec<(u64, u64)> = vec![];
+            for e in req["edges"].as_array().into_iter().flatten() {
+                let (a, b) = (nodes[e[0].as_u64().unwrap_or(0) as usize], nodes[e[1].as_u64().unwrap_or(0) as usize]);
+                g.add_wait(a, b, None);
+                pre.push((a, b));
+            }
+            let (w, h) = (req["w"].as_u64().unwrap_or(0), req["h"].as_u64().unwrap_or(0));
+            let gop = req["graph_op"].as_str().unwrap_or("");
+            match gop {
+                "add_wait" => g.add_wait(w, h, None),
+                "remove_wait" => g.remove_wait(w, h),
+                _ => g.remove_transaction(w),
+            }
+            let mut ids: Vec<u64> = nodes.clone();
+            ids.push(w);
+            ids.push(h);
+            ids.sort_unstable();
+            ids.dedup();
+            let mut fwd = vec![];
+            let mut rev = vec![];
+            for a in &ids {
+                for b in g.waiting_for(*a) { fwd.push((*a, b)); }
+                for b in g.waiting_on(*a) { rev.push((b, *a)); }
+            }
+            fwd.sort_unstable();
+            rev.sort_unstable();
+            let mut expect: Vec<(u64, u64)> = match gop {
+                "add_wait" => { let mut e = pre.clone(); if w != h { e.push((w, h)); } e },
+                "remove_wait" => pre.iter().copied().filter(|e| *e != (w, h)).collect(),
+                _ => pre.iter().copied().filter(|e| e.0 != w && e.1 != w).collect(),
+            };
+            expect.sort_unstable();
+            expect.dedup();
+            let remnant = gop == "remove_transaction" && (g.get_wait_start(w).is_some() || g.get_priority(w).is_some());
+            json!({"forward": fwd, "reverse": rev, "expected": expect, "violates": fwd != rev || fwd != expect || remnant})
+        },
         _ => return None,
     })
 }
